@@ -367,6 +367,7 @@ def _commutes_rules(ctx, repo):
     _trace_distance_rules(ctx, repo)
     _phase_by_rules(ctx, repo)
     _phased_xz_canonical(ctx, repo)
+    _mutable_equality_cache(ctx, repo)
     ctx.decided.append('C08.i no statement discards the result of a value-semantics method (inverse / then / with_* / replace ...): `t.inverse()` without rebinding is a no-op')
     shared.discarded_value_rule(ctx, 'C08.i')
     ctx.decided.append('C08.j predicates and builders write the private fields of another object only when that object was created in the same function (EigenGate._equal_up_to_global_phase_ zeroes _global_shift on the result of _with_exponent, which therefore must never be self)')
@@ -621,3 +622,39 @@ def _phased_xz_canonical(ctx, repo):
         ctx.ob('C08.l', f'{ci.qual}._canonical:x={x}:z={z}:a={a}', ok, '' if ok else
                f'PhasedXZGate(x={x}, z={z}, a={a}) is canonicalised to (x={out._x_exponent:g}, z={out._z_exponent:g}, a={out._axis_phase_exponent:g}), a different rotation (overlap {ov:.4f})',
                ci.mod.rel, fn.lineno)
+
+
+def _mutable_equality_cache(ctx, repo):
+    """C08.m - a mutable (unhashable) value-equality class does not inherit a cached values getter from a hashable base."""
+    ctx.decided.append('C08.m value_equality caches the values getters it installs on hashable classes; a class decorated unhashable=True below such a class defines its own '
+                       '_value_equality_values_ and - when approximate - its own _value_equality_approximate_values_, so ==, approx_eq and hash never see values from before a mutation')
+    ctx.rule('C08.m', 'no stale equality values: for every class decorated @value_equality(unhashable=True, ...) that has a base class decorated @value_equality without unhashable, the class '
+             'body defines _value_equality_values_, and defines _value_equality_approximate_values_ if either decorator says approximate=True (the decorator keeps an inherited getter, which '
+             'is the base class\'s cached one)', floor=1, style='COH')
+
+    def deco(ci):
+        for d in ci.node.decorator_list:
+            nm = dotted(d.func if isinstance(d, ast.Call) else d) or ''
+            if nm.split('.')[-1] == 'value_equality':
+                kw = {k.arg: (k.value.value if isinstance(k.value, ast.Constant) else None) for k in d.keywords} if isinstance(d, ast.Call) else {}
+                return kw
+        return None
+    n = 0
+    for ci in sorted(repo.classes.values(), key=lambda c: c.qual):
+        if '.testing.' in ci.qual or ci.mod.rel.endswith('_test.py'):
+            continue
+        d = deco(ci)
+        if not d or not d.get('unhashable'):
+            continue
+        bases = [b for b in repo.mro(ci)[1:] if deco(b) is not None and not deco(b).get('unhashable')]
+        if not bases:
+            continue
+        n += 1
+        approx = d.get('approximate') or any(deco(b).get('approximate') for b in bases)
+        own = {f.name for f in ci.node.body if isinstance(f, ast.FunctionDef)} | {t.id for s in ci.node.body if isinstance(s, ast.Assign) for t in s.targets if isinstance(t, ast.Name)}
+        miss = [m for m in (['_value_equality_values_'] + (['_value_equality_approximate_values_'] if approx else [])) if m not in own]
+        ctx.ob('C08.m', f'{ci.qual}:own-equality-getters', not miss, '' if not miss else
+               f'{ci.name} is mutable (unhashable) but inherits {miss} from {bases[0].name}, where the decorator wrapped it in a per-instance cache: after an in-place change '
+               f'{"cirq.approx_eq" if "_approximate_" in miss[0] else "=="} still compares the old values', ci.mod.rel, ci.node.lineno)
+    if n == 0:
+        raise AnalysisError('C08.m: no unhashable value-equality class below a hashable one found')
